@@ -744,7 +744,7 @@ func ruleX6(c *Ctx, types_ ...string) {
 		}
 		ok := false
 		walkNoLit(f.Body, func(x ast.Node) bool {
-			if rs, isRet := x.(*ast.ReturnStmt); isRet && len(rs.Results) == 1 && strings.HasSuffix(exprStr(rs.Results[0]), ".tracker.len()") {
+			if rs, isRet := x.(*ast.ReturnStmt); isRet && len(rs.Results) == 1 && strings.HasSuffix(exprStr(resolveLocal(f, rs.Results[0])), ".tracker.len()") {
 				ok = true
 			}
 			return true
